@@ -16,7 +16,7 @@ from .stubs import install_uniform, ptr, sym_array
 from . import steps
 from pyxsym.sym import s_and, s_or, s_not, s_log, s_exp, s_sqrt, s_cos, ite, is_sym, Sym
 
-REPLAY = ("replay_drivers.ssa", "replay")
+REPLAY = ("replay_drivers.C11", "replay")
 FACETS = ["step", "growth-clock", "invariant", "exit", "loop", "init", "rules"]
 
 
@@ -118,6 +118,17 @@ def check(tier):
                    dict(cases=[(S, R, T, ci)], facets=FACETS))
     for w in ("sttv", "base", "state"):
         ck.add("kernel/" + w, "harness.C11", "kernel_job", dict(cases=[(w,)]))
+    # the volume-scaled rate laws themselves, through the plain and safe interfaces (C01's closed forms)
+    from . import C01
+    ms = [x for x in C01.massaction_structures("quick") if len(x[1]) == 1 and len(x[1][0]) <= 3 and x[2]]
+    hs = [x for x in C01.hill_structures("quick") if x[4] and x[5] in ("sym", 2)]
+    if tier == "quick":
+        ms, hs = ms[::2], hs[::3]
+    for i in range(0, len(ms), 8):
+        ck.add("rate-laws/massaction/%d" % (i // 8), "harness.C01", "massaction_job",
+               dict(cases=ms[i:i + 8], domain="real", routes=["interface", "safe"]))
+    for i in range(0, len(hs), 8):
+        ck.add("rate-laws/hill/%d" % (i // 8), "harness.C01", "hill_job", dict(cases=hs[i:i + 8], domain="real", routes=["interface", "safe"]))
     ck.bounds = dict(species="<= 3", reactions="<= 3", time_points="<= 4",
                      loop="one iteration from an arbitrary pre-state (inductive) + initialisation + exit/truncation")
     ck.assumptions = [
